@@ -44,6 +44,9 @@ def tree_case(rng, tier, algo=None):
     if algo == "VHCT" and rng.random() < 0.2:
         # rewards with a large common offset: where a variance computed from raw moments cancels catastrophically
         c["reward"]["family"] = str(rng.choice(["large_off", "large"]))
+    if algo == "T_HOO" and rng.random() < 0.25:
+        # coarse discrete rewards with a wide spread: exact ties between sibling B-values
+        c["reward"]["family"] = str(rng.choice(["intnormal", "quant5", "tied", "twoval", "nonpos3"]))
     if algo == "T_HOO" and rng.random() < 0.15:
         # resonant settings: nu*sqrt(n) is an exact power of 1/rho, so the published depth bound is exactly an integer
         # and '<=' vs '<' (or a re-arranged formula) decide differently
